@@ -272,6 +272,28 @@ PROPS = {
         "assumptions": ["cross-codec fixpoint is only demanded when every string of the accepted message is valid UTF-8 (JSON cannot carry anything else)",
                         "a per-input watchdog of 20 s stands for 'hangs'; runtime fatals (stack exhaustion, OOM) kill the shard process and are reported by the driver as process-crash"],
     },
+    "C13": {
+        "level": "exploration",
+        "groups": [g("inmem", "c13", q=8, t=16, run="^Test(Regress.*|Grid|WebSocketInMem|QUICInMem|QUICLoopback|WebTransportLoopback|BigMessages)$"),
+                   g("coder", "c13coder", q=4, t=8, run="^Test(Prop|Grid)$"),
+                   g("gorilla", "c13gorilla", q=4, t=8, run="^Test(Prop|Grid)$"),
+                   g("nhooyr", "c13nhooyr", q=4, t=8, run="^Test(Prop|Grid)$")],
+        "timeout": {"quick": 600, "thorough": 3000},
+        "rule": ("generated: a compression setting (type in {absent, '', per-message, context-takeover, unknown}; level absent/0-9; window bits absent/0-32) and a "
+                 "sequence of 1-40 messages from 1-4 concurrent writers; sizes around 0, 1, the window size (+-1), 32 KiB, 64 KiB (+-1), 1-5 MiB (big-message test); "
+                 "content constant / periodic / random / copy of the previous message / prefix of an earlier message / random-then-zero / zero-then-random so "
+                 "that dictionaries and stored blocks matter. Carriers: in-memory websocket.Conn pair with a strictly exclusive writer and frame capture; in-memory "
+                 "quic.Connection pair with generated short reads; real loop-back QUIC and WebTransport (self-signed); the three real WebSocket backends "
+                 "(coder, gorilla, nhooyr) over an httptest loop-back with websocket.New at both ends. The two ends are built from different base "
+                 "configurations whenever the parameters name everything. Exhaustive part: every cell of the grid type x level x window bits with two fixed "
+                 "dictionary-sensitive sequences. Oracle: same number of Reads, byte equality and order (per writer when concurrent, each message carrying "
+                 "writer/index/length/crc), captured frames decoded by an independent decoder written in the harness (raw deflate with preset dictionary = "
+                 "the last window bytes of plaintext; 4-byte big-endian length prefix on streams), Tx counter = bytes framed, Rx counter = Tx counter. "
+                 "Non-trivial = at least two messages with compression on, or a message of at least 64 KiB, or concurrent writers; distinct by compression key + carrier + size classes."),
+        "assumptions": ["window bits above 15 and 0 mean what transport/compress documents (window size clamps); the harness decoder derives the window from the same documented rule",
+                        "concurrent writers: only per-writer order is demanded",
+                        "loop-back carriers use the real quic-go / webtransport-go / websocket libraries in this process; their own correctness is trusted"],
+    },
     "C15": {
         "level": "fault_enumeration",
         "groups": [g("main", "c15", q=16, t=32, run="^Test(Announce|Prop)$", gomaxprocs=[4, 4, 2, 16])],
